@@ -38,14 +38,20 @@ def base_cases(tier):
     rp = fam.prof_list(fam.rank_family(3), 2, (1, 2), fam.cands(3))
     wk = common.weak_profiles("quick")
     if tier == "quick":
-        rp = rp[:30] + rp[30::3]
+        rp = rp[:30] + rp[30::4]
         wk = wk[::12]
     else:
         wk = wk[::2]
     for c in rp:
         cs.append(("rank", "int", c))
     big = fam.prof_list(fam.rank_family(3), 2, (1400003, 999983), fam.cands(3))
-    for c in (big[30::16] if tier == "quick" else big[::3]):
+    # two ballot types led by the same candidate: its surplus is split between them with transfer values whose
+    # denominators exceed 10**6 (weight splitting must still commute with the transfer)
+    same_first = [c for c in big if len(c[1]) == 2 and c[1][0][0][0] == c[1][1][0][0]
+                  and len(c[1][0][0]) > 1 and len(c[1][1][0]) > 1 and c[1][0][0][1] != c[1][1][0][1]]
+    if tier == "quick":
+        same_first = [c for c in same_first if c[1][0][1] != c[1][1][1]][::2]
+    for c in (big[30::16] + same_first if tier == "quick" else big[::3] + same_first):
         cs.append(("rank", "rat", c))
     for c in wk:
         cs.append(("weak", "int", c))
@@ -56,7 +62,7 @@ def build_cases(tier, seed):
     global _CASES, _SEEDDIGESTS, _SEEDS
     _CASES = base_cases(tier)
     meta = {
-        "family": ("quick: 30 single-type + every 3rd two-type profile of " if tier == "quick" else "") + "Prof(Rank(3),2,{1,2}), a slice of Prof(Rank(3),2,{1400003,999983}) and a slice of "
+        "family": ("quick: 30 single-type + every 4th two-type profile of " if tier == "quick" else "") + "Prof(Rank(3),2,{1,2}), a slice of Prof(Rank(3),2,{1400003,999983}) and a slice of "
                   "Prof(Weak(3),2,{1,2}) x one deterministic configuration per code path of every non-random rule + scoring utilities + "
                   "PairwiseComparisonGraph; transformations (all of them per base case): 3! bijections onto each of the name sets "
                   f"{NAME_SETS}, all ballot orders, splits of each ballot weight (w/2+w/2, w/4+3w/4), all 3! candidate-tuple orders; "
